@@ -449,17 +449,27 @@ Definition run (fe : funenv) (fuel : nat) (g : string) (args : list val) (h : he
    (used by the correspondence check: lists in, lists out) *)
 
 (* put each int-slice argument in its own fresh array; [None] is the nil slice *)
-Inductive arg := AInt (z : Z) | ASl (l : option (list Z)).
+Inductive arg := AInt (z : Z) | ASl (l : option (list Z)) | AStruct (fs : list arg).
+
+Fixpoint load_arg (a : arg) (h : heap) {struct a} : val * heap :=
+  match a with
+  | AInt z => (VInt z, h)
+  | ASl None => (VNil, h)
+  | ASl (Some l) => let (i, h1) := alloc h l in (VSl (Slice i O (length l) (length l)), h1)
+  | AStruct fs =>
+    let (vs, h') :=
+      (fix go (l : list arg) (h0 : heap) : list val * heap :=
+         match l with
+         | [] => ([], h0)
+         | x :: r => let (v, h1) := load_arg x h0 in let (vs, h2) := go r h1 in (v :: vs, h2)
+         end) fs h in
+    (VStruct vs, h')
+  end.
 
 Fixpoint load_args (as_ : list arg) (h : heap) : list val * heap :=
   match as_ with
   | [] => ([], h)
-  | AInt z :: r => let (vs, h') := load_args r h in (VInt z :: vs, h')
-  | ASl None :: r => let (vs, h') := load_args r h in (VNil :: vs, h')
-  | ASl (Some l) :: r =>
-    let (a, h1) := alloc h l in
-    let (vs, h') := load_args r h1 in
-    (VSl (Slice a O (length l) (length l)) :: vs, h')
+  | a :: r => let (v, h1) := load_arg a h in let (vs, h') := load_args r h1 in (v :: vs, h')
   end.
 
 (* results with every slice read out of the final heap *)
